@@ -85,7 +85,7 @@ def run(ctx):
             if "build_exc" in ev or "skip" in ev:
                 skipped += 1
                 continue
-            events.append({"id": ev["id"], "orig": ev["orig"], "toks": ev["toks"], "back": ev["back"],
+            events.append({"id": ev["id"], "orig": ev["orig"], "chars": ev["chars"], "back": ev["back"],
                            "reprok": ev["reprok"], "nameok": ev["nameok"]})
             ctx.distinct(ev["str"])
     eb = rawtables.element_base()
